@@ -728,10 +728,11 @@ func runPlan(p *plan) *result {
 // builder lays ops out on a real-time axis such that no op other than sc.expire comes within
 // `margin` of a moment at which an expiry goroutine is due.
 type builder struct {
-	p       plan
-	t       time.Duration
-	pending []pend // goroutines not yet expired
-	nAdj    int
+	p        plan
+	t        time.Duration
+	pending  []pend // goroutines not yet expired
+	nAdj     int
+	clkEpoch uint64 // the clock's epoch as the plan expects it (only to lay out the time axis)
 }
 
 type pend struct {
@@ -795,11 +796,17 @@ func (b *builder) op(s string) {
 
 func (b *builder) wait(d time.Duration) { b.t += d }
 
-func (b *builder) step(off int64) { b.op(fmt.Sprintf("sc.step %d", off)) }
-func (b *builder) epoch()         { b.op("sc.epoch") }
-func (b *builder) sleep(d int64)  { b.op(fmt.Sprintf("sc.sleep %d", d)) }
+func (b *builder) step(off int64) {
+	b.op(fmt.Sprintf("sc.step %d", off))
+	if b.clkEpoch != math.MaxUint64 {
+		b.clkEpoch++
+	}
+}
+func (b *builder) epoch()        { b.op("sc.epoch") }
+func (b *builder) sleep(d int64) { b.op(fmt.Sprintf("sc.sleep %d", d)) }
 func (b *builder) setEpoch(n uint64) {
 	b.op(fmt.Sprintf("sc.setepoch %d", n))
+	b.clkEpoch = n
 }
 
 // adjust returns the id of the goroutine it starts (-1 for a negative duration: panic).
@@ -1267,9 +1274,15 @@ func pllHistory(r *lib.Rand, k int) *plan {
 			mode, t0s, t0n = 1, sec, ns
 		case 1:
 			if since(t0s, t0n) > 2e9 && w > 3 {
+				ot0s, ot0n := t0s, t0n
 				mode, t0s, t0n = 2, sec, ns
 				if off > 1e6 || off < -1e6 {
-					mode = -1 // stepped: the next update restarts
+					if b.clkEpoch == math.MaxUint64 {
+						mode, t0s, t0n = 1, ot0s, ot0n // Step panics: the PLL stays as it was
+					} else {
+						b.clkEpoch++
+						mode = -1 // stepped: the next update restarts
+					}
 				}
 			}
 		case 2:
@@ -1290,17 +1303,29 @@ func pllHistory(r *lib.Rand, k int) *plan {
 		}
 	}
 	externalStep := func() {
+		moves := b.clkEpoch != math.MaxUint64 // at MaxUint64 Step panics and the epoch stays
 		b.step(r.Range(-1e9, 1e9))
-		mode = 0
+		if moves {
+			mode = 0
+		}
 	}
 	n := 10 + r.Intn(14)
 	for i := 0; i < n && b.t < 2500*time.Millisecond; i++ {
+		if mode < 3 && r.Chance(10) {
+			// another user of the shared clock object starts a slew during the PLL's start-up: the
+			// PLL's own step then finds it registered
+			b.adjust(r.Range(-1e6, 1e6), r.Range(0, 1999999999), bits(float64(r.Range(-100, 100))*1e-6))
+		}
 		switch mode {
 		case 0:
 			update(r.Range(-3e6, 3e6))
 		case 1:
 			adv(r.Pick64([]int64{2e9 + 1, 2e9, 3e9, 1e9}))
-			update(r.Pick64([]int64{5e6, -7e6, 1e6, 100, r.Range(-3e6, 3e6)}))
+			if r.Chance(65) {
+				update(r.Pick64([]int64{1e6, -1e6, 100, r.Range(-1e6, 1e6)}))
+			} else {
+				update(r.Pick64([]int64{5e6, -7e6, 1e6 + 1, math.MinInt64, r.Range(-3e9, 3e9)}))
+			}
 		case 2:
 			adv(r.Pick64([]int64{6e9 + 1, 6e9, 7e9, 3e9}))
 			update(r.Range(-2e6, 2e6))
@@ -1399,6 +1424,11 @@ func gen(c *lib.Ctx) {
 			continue
 		case res.taint != "":
 			c.Count("history:timing-unreliable-dropped")
+			if os.Getenv("C19CLK_DEBUG") != "" {
+				for _, o := range res.outs {
+					fmt.Fprintf(os.Stderr, "%6dms %s => %s %v\n", o.started.Milliseconds(), o.op, o.ans, o.side)
+				}
+			}
 			c.NotExecuted("history " + res.p.name + " dropped, timing unreliable three times: " + res.taint)
 			continue
 		}
